@@ -20,6 +20,7 @@ FUN s=<cps> spans=<a>-<b>,... parts=<L<cps>|W>/... (template parts: literal / $0
 -/
 import EPV.Proto
 import EPV.Spec.XsdRegex
+import EPV.Spec.ClassRangeBody
 import EPV.Gen.C12Tables
 open EPV.Proto EPV.Regex
 namespace EPV.Regex
@@ -110,7 +111,9 @@ def scanTrigger (s : List Ch) : Bool :=
   go (s.length + 1) s 0 none
 
 /-- `CLS v=<10|11> x=<0|1> src=<cps of the whole class text> probes=<cps>`
-  -> model=<bits|ERR> spec=<bits|BAD> unclear=<0|1> f12=<0|1> scan=<0|1>
+  -> model=<bits|ERR> spec=<bits|BAD> unclear=<0|1> f12=<0|1> scan=<0|1> ublk=<0|1> rb=<ok|rev|na> rbneg=<0|1>
+  rb: `rangeClassVerdict` (Spec/ClassRangeBody.lean) — plain characters and plain ranges, optional `^`:
+      ok = the grammar has a parse, rev = a reversed range (no parse), na = text outside that fragment
   model: the transcribed class scanner + `CharacterClass` algebra; spec: grammar + XSD set -/
 def answerCls (fs : List (String × String)) : String :=
   match parseCps (field fs "src"), parseCps (field fs "probes") with
@@ -130,7 +133,11 @@ def answerCls (fs : List (String × String)) : String :=
           | none => ("BAD", st.unclear, false, c.unknownBlock)
         | _ => ("BAD", false, false, false)
       | _ => ("BAD", false, false, false)
-    s!"model={model} spec={spec} unclear={b unclear} f12={b f12} scan={b (scanTrigger src)} ublk={b ublk}"
+    -- phase 5: the verdict of the range-body decision procedure (theorem charclass_scan_ranges_decides)
+    let (rb, rbneg) := match src with
+      | 91 :: rest => rangeClassVerdict rest
+      | _ => (.outside, false)
+    s!"model={model} spec={spec} unclear={b unclear} f12={b f12} scan={b (scanTrigger src)} ublk={b ublk} rb={rb.show} rbneg={b rbneg}"
   | _, _ => "bad-cls"
 
 def flagsOf (f : String) : Flags := { dotAll := f.contains 's', multi := f.contains 'm' }
